@@ -321,14 +321,21 @@ def wfPosting (p : Posting) : Bool :=
   (match p.balance with | some b => wfVExpr b | none => true) &&
   p.metadata.all wfMetadata
 
+/-- the payee: one line without `;`, nothing for `space0` / `trim_end` to remove; when the header carries no `(code)`, it
+does not begin with a clear mark (unless one is printed before it) and — if it begins with `(` — holds no `)`: the
+transaction code must be closed on its line (`paren_str`), so `(abc` is read back as the payee `(abc`, whereas `(a)bc`
+would be read back as the code `a` and the payee `bc` -/
 def wfPayee (t : Transaction) : Bool :=
   let s := t.payee.toList
   s.all (fun c => !(c == ';' || c == '\r' || c == '\n')) && notBlankStart s && endTrimmed s &&
-  (t.code.isSome || ((t.clear != .uncleared || notClearMarkStart s) && s.head? != some '('))
+  (t.code.isSome || ((t.clear != .uncleared || notClearMarkStart s) && (s.head? != some '(' || !s.contains ')')))
+
+/-- the text of a transaction code: no `)`, CR or LF (`paren_str` stops there; at a line end it fails) -/
+def wfCode (c : List Char) : Bool := c.all fun x => !isParenStrStop x
 
 def wfTransaction (t : Transaction) : Bool :=
   wfDate t.date && (match t.effectiveDate with | some d => wfDate d | none => true) &&
-  (match t.code with | some c => c.toList.all (· != ')') | none => true) &&
+  (match t.code with | some c => wfCode c.toList | none => true) &&
   wfPayee t && t.metadata.all wfMetadata && t.posts.all wfPosting
 
 /-! ## `canonEntry`: the meaning of a tree — the grouping style of a number is part of the meaning only where
